@@ -15,6 +15,7 @@ pub mod c11;
 pub mod c12;
 pub mod c15;
 pub mod c16;
+pub mod c10;
 
 pub struct Tier {
     pub thorough: bool,
@@ -126,6 +127,7 @@ pub fn run_property(id: &str, t: &Tier, replay: Option<(String, std::collections
         "C12" => c12::run(&mut pr, t),
         "C15" => c15::run(&mut pr, t),
         "C16" => c16::run(&mut pr, t),
+        "C10" => c10::run(&mut pr, t),
         _ => return None,
     }
     let _ = explore;
